@@ -24,7 +24,15 @@ inductive Json where
   | obj (kvs : List (Bytes × Json))     -- members in order, duplicates kept
   deriving Repr, Inhabited
 
-def strBytes (s : String) : Bytes := s.toUTF8.toList
+/-- UTF-8 bytes of a list of characters / of a string (written with `toList` so that it reduces in the kernel) -/
+def charsBytes (cs : List Char) : Bytes := cs.flatMap (fun c => utf8Encode c.toNat)
+def strBytes (s : String) : Bytes := charsBytes s.toList
+
+/-- the fixed member names of the JSON mapping, as bytes -/
+def kType : Bytes := [116, 121, 112, 101]
+def kValue : Bytes := [118, 97, 108, 117, 101]
+def kOk : Bytes := [111, 107]
+def kBase64 : Bytes := [98, 97, 115, 101, 54, 52]
 
 /-! ### canonical one-word dump (line protocol): `z t f n<text> s<hex> [a,b] {<hexkey>:v,…}` -/
 
@@ -71,7 +79,7 @@ def isTrueType (d : Desc) (ty : Nat) : Bool :=
 
 /-- TL2-omitted field (`_`-prefixed / anonymous TL2 field): no JSON key -/
 def fieldOmitted (s : StructD) (f : Field) : Bool :=
-  f.name.startsWith "_" || (f.name == "" && s.originTL2)
+  (match f.name.toList with | '_' :: _ => true | _ => false) || (f.name == "" && s.originTL2)
 
 def dependsOnLocal (f : Field) : Bool := f.natArgs.any (fun a => match a with | .field _ => true | _ => false)
 
@@ -137,7 +145,7 @@ def writePrimJ (k : PrimK) (v : Val) : Except CErr Json :=
     | .nan => .ok (.str (strBytes "NaN"))
     | .inf neg => .ok (.str (strBytes (if neg then "-Inf" else "+Inf")))
     | .fin _ _ _ => .ok (.num (floatText fmt64 n))
-  | .str, .str s => .ok (if utf8Valid s then .str s else .obj [(strBytes "base64", .str (base64Encode s))])
+  | .str, .str s => .ok (if utf8Valid s then .str s else .obj [(kBase64, .str (base64Encode s))])
   | .bool _ _, .bool b => .ok (.bool b)
   | _, _ => .error .shape
 
@@ -258,24 +266,24 @@ def writeJson (d : Desc) : Nat → Wj
                 | none => .error .desc
                 | some ena =>
                   match emptyCond d fuel f.ty e with
-                  | some false => .ok (.obj [(strBytes "ok", .bool true)])
+                  | some false => .ok (.obj [(kOk, .bool true)])
                   | _ =>
                     match writeJson d fuel f.ty ena e with
                     | .error er => .error er
-                    | .ok j => .ok (.obj [(strBytes "ok", .bool true), (strBytes "value", j)])
+                    | .ok j => .ok (.obj [(kOk, .bool true), (kValue, j)])
               | _ => .error .desc
             | _, _ => .error .shape
           else
             let name := strBytes (variantJsonName d vi vname)
             if u.isEnum then .ok (.str name)
-            else if isTrueType d vi then .ok (.obj [(strBytes "type", .str name)])
+            else if isTrueType d vi then .ok (.obj [(kType, .str name)])
             else
               match emptyCond d fuel vi x with
-              | some false => .ok (.obj [(strBytes "type", .str name)])
+              | some false => .ok (.obj [(kType, .str name)])
               | _ =>
                 match writeJson d fuel vi vparams x with
                 | .error e => .error e
-                | .ok j => .ok (.obj [(strBytes "type", .str name), (strBytes "value", j)])
+                | .ok j => .ok (.obj [(kType, .str name), (kValue, j)])
         | none, _ => .error .shape
         | _, none => .error .desc
       | _ => .error .shape
@@ -339,7 +347,7 @@ def readStringJ : Option Json → Except CErr Val
   | none => .ok (.str [])
   | some (.str s) => .ok (.str s)
   | some (.obj [(k, .str b)]) =>
-    if k == strBytes "base64" then
+    if k == kBase64 then
       match base64Decode b with
       | some r => .ok (.str r)
       | none => .error .rej
@@ -363,10 +371,21 @@ def readPrimJ (k : PrimK) (j : Option Json) : Except CErr Val :=
     | some _ => .error .rej
   | .bit => .error .desc
 
+def zeroFieldsWith (z : Nat → Except CErr Val) : List Field → Except CErr (List (Option Val))
+  | [] => .ok []
+  | f :: fs =>
+    match zeroFieldsWith z fs with
+    | .error e => .error e
+    | .ok rest =>
+      if f.mask.isSome || f.tl2bit.isSome then .ok (none :: rest)
+      else match z f.ty with
+        | .error e => .error e
+        | .ok v => .ok (some v :: rest)
+
 /-- Go `Reset()` of a value of a type without nat parameters: the zero value -/
 def zeroVal (d : Desc) : Nat → Nat → Except CErr Val
-  | 0, _ => .error .fuel
-  | fuel + 1, ty =>
+  | 0 => fun _ => .error .fuel
+  | fuel + 1 => fun ty =>
     match d.get? ty with
     | none => .error .desc
     | some (.prim k) =>
@@ -375,18 +394,7 @@ def zeroVal (d : Desc) : Nat → Nat → Except CErr Val
       | .bool _ _ => .ok (.bool false)
       | .bit => .ok (.bool false)
       | _ => .ok (.nat 0)
-    | some (.struct s) =>
-      let rec go : List Field → Except CErr (List (Option Val))
-        | [] => .ok []
-        | f :: fs =>
-          match go fs with
-          | .error e => .error e
-          | .ok rest =>
-            if f.mask.isSome || f.tl2bit.isSome then .ok (none :: rest)
-            else match zeroVal d fuel f.ty with
-              | .error e => .error e
-              | .ok z => .ok (some z :: rest)
-      (go s.fields).map Val.struct
+    | some (.struct s) => (zeroFieldsWith (zeroVal d fuel) s.fields).map Val.struct
     | some (.union u) =>
       match u.variants with
       | (vi, _) :: _ => (zeroVal d fuel vi).map (Val.union 0)
@@ -418,7 +426,8 @@ def keysOk (s : StructD) (kvs : List (Bytes × Json)) : Bool :=
 def memberOf (s : StructD) (f : Field) (kvs : List (Bytes × Json)) : Option Json :=
   if fieldOmitted s f then none else lookupKey (strBytes f.name) kvs
 
-def setBit (n bit : Nat) : Nat := if testBit n bit then n else n + 2 ^ bit
+/-- Go `n |= 1 << bit` -/
+def setBit (n bit : Nat) : Nat := n ||| 2 ^ bit
 
 def setNatField (vals : List (Option Val)) (i bit : Nat) : List (Option Val) :=
   match vals[i]? with
@@ -451,88 +460,100 @@ structure Slot where
   trueVal : Bool           -- isBit fields: the boolean read
   deriving Inhabited
 
+/-- BLOCK main read (+ reset of independent absent props): bit fields and independent fields are read, dependent ones deferred -/
+def rsPass1 (d : Desc) (fuel : Nat) (rj : Rj) (s : StructD) (kvs : List (Bytes × Json)) :
+    List Field → Except CErr (List Slot × List (Option Val))
+  | [] => .ok ([], [])
+  | f :: fs =>
+    match rsPass1 d fuel rj s kvs fs with
+    | .error e => .error e
+    | .ok (slots, vals) =>
+      let j := memberOf s f kvs
+      if f.isBit then
+        match j with
+        | none => .ok ({ f, j, presented := false, trueVal := false } :: slots, none :: vals)
+        | some (.bool b) => .ok ({ f, j, presented := true, trueVal := b } :: slots, none :: vals)
+        | some _ => .error .rej
+      else if f.natArgs.isEmpty then
+        match j with
+        | some jv =>
+          match rj f.ty [] (some jv) with
+          | .error e => .error e
+          | .ok v => .ok ({ f, j, presented := true, trueVal := false } :: slots, some v :: vals)
+        | none =>
+          if fieldOmitted s f then .ok ({ f, j, presented := false, trueVal := false } :: slots, none :: vals) else
+          match zeroVal d fuel f.ty with
+          | .error e => .error e
+          | .ok z => .ok ({ f, j, presented := false, trueVal := false } :: slots, some z :: vals)
+      else .ok ({ f, j, presented := j.isSome, trueVal := false } :: slots, none :: vals)
+
+def presentOr (f : Field) (vals : List (Option Val)) (params : List Nat) : Bool :=
+  match fieldPresent f vals params with | some b => b | none => false
+
+/-- BLOCK set TL2 masks from TL1 masks (uses the masks as they are *before* propagation) -/
+def rsTl2Set (params : List Nat) (vals0 : List (Option Val)) (slots : List Slot) : List Bool :=
+  slots.map (fun sl =>
+    if sl.presented then (if sl.f.isBit then sl.trueVal else true) else presentOr sl.f vals0 params)
+
+/-- does this slot imply its mask bits (a presented field, or a true-typed field given as `true`) -/
+def Slot.implies (sl : Slot) : Bool := sl.f.mask.isSome && (if sl.f.isBit then sl.trueVal else sl.presented)
+
+/-- BLOCK set TL1 field masks recursively -/
+def rsProp (s : StructD) (params : List Nat) : List Slot → List (Option Val) → Except CErr (List (Option Val))
+  | [], vals => .ok vals
+  | sl :: r, vals =>
+    if sl.implies then
+      match propagateMask s params (s.fields.length + 1) sl.f vals with
+      | .error e => .error e
+      | .ok vals' => rsProp s params r vals'
+    else rsProp s params r vals
+
+/-- BLOCK trueType with false values validation (types without TL2 only) -/
+def rsBadFalse (s : StructD) (params : List Nat) (vals1 : List (Option Val)) (slots : List Slot) : Bool :=
+  !s.hasTL2 && slots.any (fun sl => sl.f.isBit && sl.presented && !sl.trueVal && presentOr sl.f vals1 params)
+
+/-- BLOCK read presented dependent fields / read-or-reset remaining fields, and the final presence of every field -/
+def rsFin (d : Desc) (fuel : Nat) (rj : Rj) (s : StructD) (params : List Nat) (vals1 : List (Option Val)) :
+    List Slot → List Bool → List (Option Val) → Except CErr (List (Option Val))
+  | [], _, _ => .ok []
+  | sl :: r, t :: ts, v :: vs =>
+    match rsFin d fuel rj s params vals1 r ts vs with
+    | .error e => .error e
+    | .ok rest =>
+      let f := sl.f
+      let tl1 := presentOr f vals1 params
+      if fieldOmitted s f then .ok (none :: rest) else
+      -- the value Go holds in the field (relevant when the field is present for TL1 or for TL2)
+      let actual : Except CErr (Option Val) :=
+        if f.isBit then .ok (some (.struct []))
+        else if f.natArgs.isEmpty then .ok v
+        else
+          match natArgVals vals1 params f.natArgs with
+          | none => .error .desc
+          | some na =>
+            if sl.presented then (rj f.ty na sl.j).map some
+            else if (if f.tl2bit.isSome then t else if f.mask.isSome then tl1 else true) then (rj f.ty na none).map some
+            else (zeroVal d fuel f.ty).map some
+      match actual with
+      | .error e => .error e
+      | .ok x =>
+        if f.tl2bit.isSome then
+          .ok ((if t then x else if tl1 then x.map hidden else none) :: rest)
+        else if f.mask.isSome then .ok ((if tl1 then x else none) :: rest)
+        else .ok (x :: rest)
+  | _, _, _ => .error .desc
+
 def readStructJ (d : Desc) (fuel : Nat) (rj : Rj) (s : StructD) (params : List Nat) (kvs : List (Bytes × Json)) :
     Except CErr Val :=
   if !keysOk s kvs then .error .rej else
-  -- BLOCK main read (+ reset of independent absent props): bit fields, independent fields
-  let rec pass1 : List Field → Except CErr (List Slot × List (Option Val))
-    | [] => .ok ([], [])
-    | f :: fs =>
-      match pass1 fs with
-      | .error e => .error e
-      | .ok (slots, vals) =>
-        let j := memberOf s f kvs
-        if f.isBit then
-          match j with
-          | none => .ok ({ f, j, presented := false, trueVal := false } :: slots, none :: vals)
-          | some (.bool b) => .ok ({ f, j, presented := true, trueVal := b } :: slots, none :: vals)
-          | some _ => .error .rej
-        else if f.natArgs.isEmpty then
-          match j with
-          | some jv =>
-            match rj f.ty [] (some jv) with
-            | .error e => .error e
-            | .ok v => .ok ({ f, j, presented := true, trueVal := false } :: slots, some v :: vals)
-          | none =>
-            if fieldOmitted s f then .ok ({ f, j, presented := false, trueVal := false } :: slots, none :: vals) else
-            match zeroVal d fuel f.ty with
-            | .error e => .error e
-            | .ok z => .ok ({ f, j, presented := false, trueVal := false } :: slots, some z :: vals)
-        else .ok ({ f, j, presented := j.isSome, trueVal := false } :: slots, none :: vals)
-  match pass1 s.fields with
+  match rsPass1 d fuel rj s kvs s.fields with
   | .error e => .error e
   | .ok (slots, vals0) =>
-    -- BLOCK set TL2 masks from TL1 masks (uses the masks as they are *before* propagation)
-    let tl2set : List Bool := slots.map (fun sl =>
-      if sl.presented then (if sl.f.isBit then sl.trueVal else true)
-      else match fieldPresent sl.f vals0 params with | some b => b | none => false)
-    -- BLOCK set TL1 field masks recursively
-    let rec prop : List Slot → List (Option Val) → Except CErr (List (Option Val))
-      | [], vals => .ok vals
-      | sl :: r, vals =>
-        if sl.f.mask.isSome && (if sl.f.isBit then sl.trueVal else sl.presented) then
-          match propagateMask s params (s.fields.length + 1) sl.f vals with
-          | .error e => .error e
-          | .ok vals' => prop r vals'
-        else prop r vals
-    match prop slots vals0 with
+    match rsProp s params slots vals0 with
     | .error e => .error e
     | .ok vals1 =>
-      -- BLOCK trueType with false values validation (types without TL2 only)
-      let badFalse := !s.hasTL2 && slots.any (fun sl =>
-        sl.f.isBit && sl.presented && !sl.trueVal &&
-          (match fieldPresent sl.f vals1 params with | some b => b | none => false))
-      if badFalse then .error .rej else
-      -- BLOCK read presented dependent fields / read-or-reset remaining fields, and final presence
-      let rec fin : List Slot → List Bool → List (Option Val) → Except CErr (List (Option Val))
-        | [], _, _ => .ok []
-        | sl :: r, t :: ts, v :: vs =>
-          match fin r ts vs with
-          | .error e => .error e
-          | .ok rest =>
-            let f := sl.f
-            let tl1 := match fieldPresent f vals1 params with | some b => b | none => false
-            if fieldOmitted s f then .ok (none :: rest) else
-            -- the value Go holds in the field (relevant when the field is present for TL1 or for TL2)
-            let actual : Except CErr (Option Val) :=
-              if f.isBit then .ok (some (.struct []))
-              else if f.natArgs.isEmpty then .ok v
-              else
-                match natArgVals vals1 params f.natArgs with
-                | none => .error .desc
-                | some na =>
-                  if sl.presented then (rj f.ty na sl.j).map some
-                  else if (if f.tl2bit.isSome then t else if f.mask.isSome then tl1 else true) then (rj f.ty na none).map some
-                  else (zeroVal d fuel f.ty).map some
-            match actual with
-            | .error e => .error e
-            | .ok x =>
-              if f.tl2bit.isSome then
-                .ok ((if t then x else if tl1 then x.map hidden else none) :: rest)
-              else if f.mask.isSome then .ok ((if tl1 then x else none) :: rest)
-              else .ok (x :: rest)
-        | _, _, _ => .error .desc
-      (fin slots tl2set vals1).map Val.struct
+      if rsBadFalse s params vals1 slots then .error .rej else
+      (rsFin d fuel rj s params vals1 slots (rsTl2Set params vals0 slots) vals1).map Val.struct
 
 def readElemsJ (rj : Rj) (f : Field) (na : List Nat) : List Json → Except CErr (List Val)
   | [] => .ok []
@@ -549,9 +570,9 @@ keys, no duplicates -/
 def readUnionHead : Option Json → Except CErr (Bytes × Option Json)
   | some (.str s) => .ok (s, none)
   | some (.obj kvs) =>
-    if kvs.all (fun kv => (kv.1 == strBytes "type" || kv.1 == strBytes "value") && countKey kv.1 kvs == 1) then
-      match lookupKey (strBytes "type") kvs with
-      | some (.str t) => .ok (t, lookupKey (strBytes "value") kvs)
+    if kvs.all (fun kv => (kv.1 == kType || kv.1 == kValue) && countKey kv.1 kvs == 1) then
+      match lookupKey (kType) kvs with
+      | some (.str t) => .ok (t, lookupKey (kValue) kvs)
       | _ => .error .rej
     else .error .rej
   | _ => .error .rej
@@ -560,9 +581,9 @@ def readUnionHead : Option Json → Except CErr (Bytes × Option Json)
 def readMaybeHead : Option Json → Except CErr (Bool × Option Json)
   | none => .ok (false, none)
   | some (.obj kvs) =>
-    if kvs.all (fun kv => (kv.1 == strBytes "ok" || kv.1 == strBytes "value") && countKey kv.1 kvs == 1) then
-      let v := lookupKey (strBytes "value") kvs
-      match lookupKey (strBytes "ok") kvs with
+    if kvs.all (fun kv => (kv.1 == kOk || kv.1 == kValue) && countKey kv.1 kvs == 1) then
+      let v := lookupKey (kValue) kvs
+      match lookupKey (kOk) kvs with
       | some (.bool true) => .ok (true, v)
       | some (.bool false) => if v.isSome then .error .rej else .ok (false, none)
       | some _ => .error .rej
@@ -570,18 +591,18 @@ def readMaybeHead : Option Json → Except CErr (Bool × Option Json)
     else .error .rej
   | some _ => .error .rej
 
-def hex8 (n : Nat) : String :=
-  String.ofList ((List.range 8).map (fun i => hexDigit ((n / 16 ^ (7 - i)) % 16)))
+def hex8 (n : Nat) : List Char :=
+  (List.range 8).map (fun i => hexDigit ((n / 16 ^ (7 - i)) % 16))
 
 /-- names under which variant `vi` is accepted (qt_union.qtpl `cases`); `legacy` = `jctx.LegacyTypeNames` -/
 def variantMatches (d : Desc) (u : UnionD) (originTL2 legacy : Bool) (vi : Nat) (vname : String) (tag : Bytes) : Bool :=
   let name := instName d vi
   let vtag := match d.get? vi with | some (.struct s) => s.tag | _ => 0
-  let tagS := "#" ++ hex8 vtag
+  let tagS := '#' :: hex8 vtag
   let hasOld := !containsSub name.toList ['_', '_'] && !(u.hasTL2 && vname == name)
   (u.hasTL2 && tag == strBytes vname) ||
   (hasOld && tag == strBytes name) ||
-  (!originTL2 && legacy && (tag == strBytes (name ++ tagS) || tag == strBytes tagS))
+  (!originTL2 && legacy && (tag == charsBytes (name.toList ++ tagS) || tag == charsBytes tagS))
 
 def findVariantJ (d : Desc) (u : UnionD) (originTL2 legacy : Bool) (tag : Bytes) : List (Nat × String) → Nat → Option (Nat × Nat)
   | [], _ => none
